@@ -20,7 +20,9 @@ PROPERTY = "C05"
 LEVEL = "exploration"
 RULE = ("every program of the C01 C02 C03 C04 C06 C07 C09 generators plus "
         "hand-parameterised families (ktime/prandom inside expressions and "
-        "conditions, sub-programs, dynamic packetSize guards after "
+        "conditions, helper calls issued directly with scratch registers "
+        "set before and read after, array-map layouts with multi-element "
+        "formats whose scalars are updated in place, sub-programs, dynamic packetSize guards after "
         "arithmetic, nested guards) and the library's own programs (the "
         "EtherXDP dispatcher; FastSyncGroup over random terminal sets with "
         "each bundled device AnalogInput/Output, DigitalInput/Output, "
@@ -143,6 +145,78 @@ def fam_calls(rng):
         ns["program"] = program
         return type("VfCalls", (XDP,), ns)()
     return mk
+
+
+def fam_rawcall(rng):
+    """helper calls issued directly through EBPF.call(): scratch registers
+    set before the call, a random subset of r0..r9 read after it (reading a
+    clobbered register must be refused by the generator, not the kernel)"""
+    from ebpfcat.ebpf import FuncId
+    func = rng.choice([FuncId.ktime_get_ns, FuncId.get_prandom_u32,
+                       FuncId.get_smp_processor_id])
+    pre = rng.sample([2, 3, 4, 5, 8], rng.randint(1, 4))
+    post = rng.sample([0, 2, 3, 4, 5, 8], rng.randint(1, 3)) \
+        if rng.random() < 0.5 else rng.sample([0, 8], rng.randint(1, 2))
+    if 8 in post and 8 not in pre:
+        pre.append(8)
+    again = rng.random() < 0.4
+
+    def mk():
+        m = ArrayMap()
+        ns = {"license": "GPL", "m": m}
+        for i in range(4):
+            ns[f"a{i}"] = m.globalVar("Q")
+
+        def program(self):
+            e = self
+            for i, r in enumerate(pre):
+                e.r[r] = getattr(e, f"a{i % 4}") + i
+            e.call(func)
+            if again:
+                e.r2 = 1
+                e.call(func)
+            for i, r in enumerate(post):
+                setattr(e, f"a{i}", e.r[r])
+            e.r0 = 2
+            e.exit()
+        ns["program"] = program
+        return type("VfRawCall", (XDP,), ns)()
+    return mk, dict(func=func.name, pre=pre, post=post, again=again)
+
+
+def fam_layout(rng):
+    """array-map declaration sets with multi-element formats: every scalar
+    variable is updated in place, copied and compared"""
+    fmts = [rng.choice(["B", "H", "I", "Q", "b", "h", "i", "q", "x", "3H",
+                        "2I", "5B", "3B", "2q", "7H"])
+            for _ in range(rng.randint(2, 9))]
+    percpu = rng.random() < 0.3
+
+    def mk():
+        from ebpfcat.arraymap import PerCPUArrayMap
+        m = PerCPUArrayMap() if percpu else ArrayMap()
+        ns = {"license": "GPL", "m": m}
+        for i, f in enumerate(fmts):
+            ns[f"a{i}"] = m.globalVar(f)
+
+        def program(self):
+            e = self
+            sc = [i for i, f in enumerate(fmts) if len(f) == 1]
+            for i in sc:
+                cur = getattr(e, f"a{i}")
+                if fmts[i] in "IiQqx":
+                    cur += 1
+                    setattr(e, f"a{i}", cur)
+                else:
+                    setattr(e, f"a{i}", cur + 1)
+            for i, j in zip(sc, sc[1:]):
+                with getattr(e, f"a{i}") > 3:
+                    setattr(e, f"a{j}", 0)
+            e.r0 = 2
+            e.exit()
+        ns["program"] = program
+        return type("VfLayout", (XDP,), ns)()
+    return mk, dict(fmts=fmts, percpu=percpu)
 
 
 def fam_guards(rng):
@@ -318,9 +392,13 @@ def run_shard(params):
                dict(kf=d["kf"], vf=d["vf"]))
         f, k, a = (rng.choice(c06.FMTS), rng.choice(c06.KINDS),
                    rng.choice(c06.AMOUNTS))
-        if not (a == "fixedconst" and f != "x"):
+        if not (a in c06.FIXED_ONLY and f != "x"):
             submit("c06", lambda: c06.build(f, k, a, 3)[0], res, [f, k, a])
         submit("calls", fam_calls(rng), res)
+        mk, d = fam_rawcall(rng)
+        submit("rawcall", mk, res, desc=d)
+        mk, d = fam_layout(rng)
+        submit("layout", mk, res, desc=d)
         submit("guards", fam_guards(rng), res)
         submit("subprog", fam_subprog(rng), res)
         mk, names = fam_fastgroup(rng)
@@ -331,7 +409,8 @@ def run_shard(params):
 def finalize(res, tier, seed):
     c = res.counters
     fams = ["c01", "c02", "c03", "c04", "c06", "c07", "c09hash", "c09dict",
-            "calls", "guards", "subprog", "fastgroup", "dispatcher"]
+            "calls", "rawcall", "layout", "guards", "subprog", "fastgroup",
+            "dispatcher"]
     missing = [f for f in fams if not c.get(f"loaded[{f}]")]
     res.info["families_without_a_loaded_program"] = missing
     if missing:
